@@ -46,6 +46,9 @@ HEADER_POOL = [
     ("X-Real-Ip", "5.5.5.5"), ("X_Real_Ip", "5.5.5.6"), ("Accept", "*/*"), ("X-A", "1"), ("X_A", "2"), ("x-a", "3"),
     ("Content-Type", "text/plain"), ("Content_Type", "evil/type"), ("Content_Length", "0"), ("Host_", "evil"), ("User-Agent", "ua"),
     ("Proxy", "x"), ("Transfer_Encoding", "chunked"),
+    # the underscore at the very start / very end of the name, a name that is nothing but underscores, and their hyphen twins
+    ("_Token", "smuggled"), ("-Token", "genuine"), ("_Remote-User", "root"), ("-Remote-User", "me"), ("_", "u"), ("-", "h"), ("__", "uu"),
+    ("Token_", "t1"), ("Token-", "t2"), ("_X_A", "4"),
 ]
 
 PROXY_LINES = [
